@@ -169,7 +169,12 @@ void adapter_exec(Ev *ev)
         if (rc >= 0) {
             obs(ev, (long long)s.pos); obs(ev, (long long)b.used); obs(ev, (long long)b.offset); obs(ev, -7);
             for (size_t i = 0; i < size; i++) obs(ev, blk[i]);
-        } else obs(ev, -7);
+        } else {
+            /* refused: the buffer's bookkeeping and its filled region are as they were (R5) */
+            long long dirty = 0;
+            for (size_t i = 0; i < used && i < size; i++) if (blk[i] != 171) dirty++;
+            obs(ev, (long long)b.used); obs(ev, (long long)b.offset); obs(ev, dirty); obs(ev, -7);
+        }
         xfree(blk);
         if (ns) xfree(st); else xfree0(st);
         return;
